@@ -95,7 +95,16 @@ UnionLaws(R, tys, i) ==
             /\ Holds(R, i, a) /\ Holds(R, i, b)
             /\ \A x \in 1..Len(tys) : Holds(R, x, i) <=> (Holds(R, x, a) /\ Holds(R, x, b))
 
-LawNames == <<"reflexive", "transitive", "any-top", "nullable-rules", "ancestors-only", "union-laws">>
+\* generic instantiations: C[a1..an] may only be used as C[b1..bn] if every ai may be used as bi ("not assignable to unrelated
+\* classes" for instantiations); checked where both instantiations and all their arguments are in the universe
+OneMem(t) == CHOOSE m \in t.ms : TRUE
+GenericArgsRelated(R, tys, i) ==
+    IsPlain(tys[i]) /\ Len(OneMem(tys[i]).g) > 0 => \A j \in 1..Len(tys) :
+        (IsPlain(tys[j]) /\ OneMem(tys[j]).n = OneMem(tys[i]).n /\ Len(OneMem(tys[j]).g) = Len(OneMem(tys[i]).g) /\ Holds(R, i, j)) =>
+            \A a \in 1..Len(OneMem(tys[i]).g) :
+                (Has(tys, OneMem(tys[i]).g[a]) /\ Has(tys, OneMem(tys[j]).g[a])) => Holds(R, Idx(tys, OneMem(tys[i]).g[a]), Idx(tys, OneMem(tys[j]).g[a]))
+
+LawNames == <<"reflexive", "transitive", "any-top", "nullable-rules", "ancestors-only", "union-laws", "generic-arguments-related">>
 Law(n, R, tys, i) == CASE n = 1 -> Refl(R, tys, i) [] n = 2 -> Trans(R, tys, i) [] n = 3 -> AnyTop(R, tys, i)
-                       [] n = 4 -> NullableRules(R, tys, i) [] n = 5 -> AncestorsOnly(R, tys, i) [] n = 6 -> UnionLaws(R, tys, i)
+                       [] n = 4 -> NullableRules(R, tys, i) [] n = 5 -> AncestorsOnly(R, tys, i) [] n = 6 -> UnionLaws(R, tys, i) [] n = 7 -> GenericArgsRelated(R, tys, i)
 =====================================================================================
